@@ -13,7 +13,7 @@ BDD = ['add', 'sub', 'sll', 'srl', 'sra', 'slt', 'sltu', 'and', 'or', 'xor', 'id
 
 PROPS = {}
 
-HOOK_COMMITS = []   # filled below
+HOOK_COMMITS = ['4fd9baa', 'bc45a72']
 
 NA_DFT = ('every clause is about the value of a polynomial product obtained through the DFT/NTT domain and about noise magnitudes: '
           'FFT64 is floating point (no f64 theory in Verus, CBMC did not finish one svp product at N=2), NTT120 is a chain of modular '
@@ -22,6 +22,17 @@ NOT_APPLICABLE = [
     dict(property_id='C04', reason=NA_DFT),
     dict(property_id='C05', reason=NA_DFT),
 ]
+# properties for which no check is registered (yet): listed as not claimed so that MANIFEST stays truthful
+_PENDING = {
+    'C01': 'no check built yet (planned: Kani contracts on noise-placement kernels); the ring identity phase = m + e needs DFT exactness and is not decidable by contracts',
+    'C02': 'no check built yet (planned: bounded Kani harnesses on GLWE wrappers); HAL column ops are covered under C09/C08',
+    'C06': 'no check built yet (planned: Kani contracts on sampling kernels); statistical claims are not contract properties',
+    'C07': 'no check built yet (planned: Kani on NTT120 scalar conversions); FFT64 exactness is floating point and out of reach',
+    'C10': 'no check built yet (planned: Kani AVX kernel == reference kernel equivalence)',
+    'C14': 'no check built yet (planned: bounded Kani on the clear LUT path)',
+    'C19': 'no check built yet (planned: bounded Kani on decompress mask order)',
+}
+
 
 PROPS['C13'] = dict(
     level='proof',
@@ -38,3 +49,161 @@ PROPS['C13'] = dict(
     ],
     remainder='that homomorphic eval_level realises the boolean level semantics',
 )
+
+
+# ------------------------------------------------------------------------------------------------------------------
+VERUS_TRUST = [
+    'Verus/Z3 soundness; vstd library lemmas and its std specifications (slice::copy_from_slice, usize::min, ...)',
+    'I-LAYOUT (vx/prelude/vec_znx.rs, scalar_znx.rs): at/at_mut return the n-element block at i64 offset n*(j*cols+i) and write through; to_ref/to_mut views alias the owner buffer (external_body contracts; backed by Kani harnesses on the real unsafe accessors where listed)',
+    'extraction rules R1-R7 (lib/rx.py, lib/r4.py): attributes/docs dropped, debug blocks kept, panics -> obligations, the listed iterator shapes desugared to index loops, tuple assignments split; nothing else changes',
+    'machine arithmetic: exec integers are bit-precise in Verus; spec-level sums are mathematical; usize is 64-bit (global size_of usize == 8)',
+]
+ZNX_FUNCS = ['znx_add_ref', 'znx_add_assign_ref', 'znx_sub_ref', 'znx_sub_assign_ref', 'znx_sub_negate_assign_ref', 'znx_negate_ref',
+             'znx_negate_assign_ref', 'znx_copy_ref', 'znx_zero_ref', 'znx_rotate', 'znx_automorphism_ref', 'znx_switch_ring_ref']
+KERNEL_QUICK = [1, 12, 17, 52, 62]
+KERNEL_ALL = list(range(1, 63))
+
+KPARTS = ['first', 'middle', 'final', 'digit']
+
+def kernel_units():
+    fns = ['znx_normalize_{first,middle,final}_step{,_assign,_carry_only,_sub}_ref', 'znx_extract_digit_addmul_ref', 'znx_normalize_digit_ref']
+    return [
+        K('poulpy-cpu-ref', 'verif_kani', ['c08_digit_carry_i64', 'c08_digit_carry_i128'], cls='complete', timeout=900,
+          functions=['get_digit_i64', 'get_carry_i64', 'get_digit_i128', 'get_carry_i128']),
+        K('poulpy-cpu-ref', 'verif_kani', [f'c08_{p}_b{b}' for b in KERNEL_QUICK for p in KPARTS], cls='complete', timeout=1500,
+          bound='radix constant per harness (complete in values, lsh, carries)', functions=fns),
+        K('poulpy-cpu-ref', 'verif_kani', [f'c08_{p}_b{b}' for b in KERNEL_ALL if b not in KERNEL_QUICK for p in KPARTS], cls='complete', tier='thorough', timeout=1500,
+          bound='radix constant per harness (complete in values, lsh, carries)'),
+    ]
+
+PROPS['C09'] = dict(
+    level='proof',
+    technique='Verus contracts (requires/ensures/loop invariants) on the real text of the coefficient-domain kernels and column operations, extracted mechanically each run; Kani for two bit-mask leaf facts',
+    level_text='Unbounded proof (all N, sizes, columns, limb values): every limb of the selected column equals the exact ring map of the operand limbs by the documented size rule; rotation, automorphism and ring switching equal their Z[X]/(X^N+1) spec for every exponent; trait contracts discharged for the FFT64Ref/NTT120Ref/ZnxRef implementors.',
+    level_note='Trusted: the VecZnx accessor interface (I-LAYOUT), vstd, the extraction rules; wrapping-free preconditions (no i64 overflow) are part of the contracts; big-accumulator (i128) variants, split_ring/merge_rings and AVX kernels are not covered by this check.',
+    units=[
+        V('znx'), V('vec_znx_arith'), V('vec_znx_ring'), V('galois'),
+        K('poulpy-cpu-ref', 'verif_kani', ['c09_mask_mod_i64', 'c09_mask_mod_usize', 'c03_mask_mod_u64'], cls='complete', timeout=600,
+          functions=['leaf fact: p & (m-1) == p mod m for power-of-two m (imported by znx_rotate / znx_automorphism_ref / galois_element proofs)']),
+    ],
+    trusted_base=VERUS_TRUST,
+    assumptions=['no i64 overflow in limb-wise add/sub/negate (stated as preconditions; the debug profile would panic, the release profile wraps)',
+                 'ring degree N a power of two <= 2^28 for rotate/automorphism (precondition)'],
+    remainder='vec_znx_split_ring / vec_znx_merge_rings (merge_rings does not merge: DESIGN §6-11), big-accumulator variants, AVX kernels (C10)',
+)
+
+PROPS['C11'] = dict(
+    level='proof',
+    technique='Verus postconditions that define every limb of the selected column from the inputs only, plus frame clauses over all other limb blocks, on the extracted real text',
+    level_text='Unbounded proof for the coefficient-domain column operations: each ensures gives final(res).limb(col, j) for all j < size as a function of the read-only inputs (no old(res) on the right-hand side for out-of-place ops) and frame_ok: every block outside (col, 0..size) is unchanged.',
+    level_note='Covers the vec_znx_* reference operations under contract (see functions_under_contract); the DFT-family operations and the core layer are not covered by this check (no abstract-kernel harness built yet).',
+    units=[V('vec_znx_arith'), V('vec_znx_ring'), V('vec_znx_normalize')],
+    trusted_base=VERUS_TRUST,
+    assumptions=['operands are distinct objects from the result (Rust borrow rules: &mut res vs &a)'],
+    remainder='DFT-domain operations (vec_znx_dft_*, svp_*, vmp_*, cnv_*), vec_znx_big_*, cross-radix normalisation, shifts, core-layer operations',
+)
+
+PROPS['C08'] = dict(
+    level='proof',
+    technique='Kani function-level contracts on the real digit/carry and step kernels (uniform law x_out + c_out*2^b == a*2^lsh + c_in) per radix, imported as trait contracts into a Verus value theorem for vec_znx_normalize_assign',
+    level_text='Kernel law: complete in all 64-bit values, lsh and carries for each radix constant (quick: 7 radices, thorough: all 1..62). Limb loop: unbounded Verus proof that in-place normalisation preserves the torus value mod 1 and leaves every digit balanced.',
+    level_note='The Verus theorem imports the kernel law as trait contracts (cross-engine chain); cross-radix normalisation, shifts and encode/decode are not covered by this check.',
+    units=kernel_units() + [V('vec_znx_normalize')],
+    trusted_base=VERUS_TRUST + ['kernel law per radix imported from Kani harnesses c08_{first,middle,final,digit}_b<radix> (quick tier discharges radices %s only)' % KERNEL_QUICK],
+    assumptions=['inputs within the documented headroom |x| <= 2^61 (normalize_assign) / |a| <= 2^62, |carry| <= 2^61 (kernels)'],
+    remainder='vec_znx_normalize (out-of-place, cross-radix, signed offsets), vec_znx_lsh/rsh, fused big-normalise forms, encode/decode',
+)
+
+PROPS['C12'] = dict(
+    level='proof',
+    technique='Kani contract check of the real arena allocator (take_slice_aligned / take_slice_default / scratch_available) with symbolic misalignment, buffer and take lengths; Verus obligations on scratch slices of the verified column operations',
+    level_text='Allocator: complete proof of address/length/alignment/disjointness postconditions and of the availability ledger (avail decreases by exactly len + alignment padding; no padding when len is a multiple of 64); the only admissible panic is proven to occur exactly when space is insufficient. Coefficient-domain ops: tmp slice of *_tmp_bytes(n)/8 elements suffices (Verus).',
+    level_note='Declared-size-suffices for DFT-family and core operations is NOT decided here (needs exact-window harnesses); for ring degrees N < 8 limb byte sizes are not multiples of 64 and padding is not budgeted by size queries (DESIGN §6-4).',
+    units=[
+        K('poulpy-cpu-ref', 'hal_defaults::scratch::verif_kani', ['c12_take_slice_aligned_contract', 'c12_take_slice_aligned_panics_iff_too_small',
+          'c12_take_slice_default_u8', 'c12_take_slice_default_i64', 'c12_take_slice_default_f64', 'c12_take_slice_default_i128'], cls='complete', timeout=600,
+          functions=['hal_defaults::scratch::take_slice_aligned', 'HalScratchDefaults::take_slice_default', 'HalScratchDefaults::scratch_available_default', 'HalScratchDefaults::scratch_from_bytes_default']),
+        V('vec_znx_ring'), V('vec_znx_normalize'),
+    ],
+    trusted_base=VERUS_TRUST,
+    assumptions=['buffer lengths <= 192 bytes in the allocator harnesses (the code is length-generic: no loop, pure pointer arithmetic)'],
+    remainder='(operation, *_tmp_bytes) pairs of the DFT family and of the core/bin-fhe/ckks layers; monotonicity of size queries',
+)
+
+PROPS['C17'] = dict(
+    level='proof',
+    technique='Verus: every index, split and slice length in the extracted functions is a discharged obligation under the layout invariant wf(); Kani pointer checks on the real unsafe allocator',
+    level_text='For the functions under contract, all shapes: no out-of-bounds index/split; every limb block addressed lies inside the buffer (lemma_limb_len). Allocator: Kani memory-safety checks (OOB, misaligned, dangling) on take_slice_aligned / take_slice_default with symbolic alignment.',
+    level_note='Only the listed functions; the unsafe accessor bodies (ZnxView::at/at_mut) are a trusted interface here; FFT/NTT kernels, AVX code and the core layer are not covered.',
+    units=[V('znx'), V('vec_znx_arith'), V('vec_znx_ring'), V('vec_znx_normalize'),
+           K('poulpy-cpu-ref', 'hal_defaults::scratch::verif_kani', ['c12_take_slice_aligned_contract', 'c12_take_slice_default_i64', 'c12_take_slice_default_i128'], cls='complete', timeout=600,
+             functions=['take_slice_aligned (unsafe)', 'take_slice_default (unsafe cast)'])],
+    trusted_base=VERUS_TRUST,
+    assumptions=['VecZnx::from_data is unchecked in the real API: wf() of every operand is a precondition'],
+    remainder='unsafe accessors of the layouts, DFT/NTT/VMP kernels, AVX loads/stores, deserialised objects used afterwards',
+)
+
+PROPS['C15'] = dict(
+    level='proof',
+    technique='Kani loop-free full-domain check of the real UnsignedInteger::bit_index for every integer width',
+    level_text='Complete for u8..u128: bit_index is a bijection of 0..BITS onto 0..BITS (inverse formula), byte k occupies residue class k modulo BYTES (the documented trace isolation).',
+    level_note='Only the bit-addressing arithmetic; everything homomorphic (bootstrapping, word operations, splice/sext/swap under encryption) is undecided.',
+    units=[K('poulpy-bin-fhe', 'bdd_arithmetic::verif_kani', [f'c15_bit_index_{t}' for t in ['u8', 'u16', 'u32', 'u64', 'u128']], cls='complete', timeout=300,
+             functions=['UnsignedInteger::bit_index (u8, u16, u32, u64, u128)'])],
+    assumptions=[],
+    remainder='circuit bootstrapping, encrypted word operations, splice/sext/swap/blind selection semantics under encryption',
+)
+
+PROPS['C16'] = dict(
+    level='proof',
+    technique='Verus contracts on the real text of the CKKS metadata algebra (checked_*, ensure_*, get_mul_*_params, offsets, set_meta_checked, CKKSInfos defaults)',
+    level_text='Unbounded proof over all usize inputs under the type invariant log_delta+log_budget <= 2^32: Ok exactly under the documented inequality, with the documented values; never success with log_delta+log_budget exceeding the stored precision; no overflow/panic on the admissible domain.',
+    level_note='anyhow::Error replaced by an opaque struct (R6); the newtype wrappers are restated (I-NEWTYPE); metadata updates inlined in the operations and all numerical slot semantics are undecided.',
+    units=[V('ckks_meta')],
+    trusted_base=VERUS_TRUST + ['I-NEWTYPE: TorusPrecision/Base2K (macro-generated in poulpy-core) restated in the unit; usize::next_multiple_of assumed specification'],
+    assumptions=['type invariant effective_k <= max_k <= 2^32 of every operand (precondition)'],
+    remainder='decoded slot values vs complex arithmetic (f64/f128 + DFT); metadata updates inlined in ckks_add/sub/pow2/rescale bodies',
+)
+
+PROPS['C18'] = dict(
+    level='proof',
+    technique='Kani contract check of the real VecZnx read_from/write_to: header bytes fully symbolic, every truncation point, Ok => consistent, Err => metadata unchanged',
+    level_text='Complete in the header domain (2^320 headers) for a receiver of fixed capacity: no panic/overflow/OOB on any path, Ok implies size <= max_size and n*cols*max_size*8 <= buffer and fields equal the header, Err leaves metadata unchanged; every truncation point of a valid stream is rejected.',
+    level_note='Receiver capacity fixed at 32 bytes (the code is capacity-generic); round trip is bounded in shape (thorough tier); core/bin-fhe wrapper types commit scalar fields before the inner read (DESIGN §6-5) and are not covered by this check.',
+    units=[
+        K('poulpy-hal', 'layouts::vec_znx::verif_kani', ['c18_vec_znx_read_header', 'c18_vec_znx_read_truncated'], cls='complete', timeout=1500,
+          functions=['<VecZnx as ReaderFrom>::read_from']),
+        K('poulpy-hal', 'layouts::vec_znx::verif_kani', ['c18_vec_znx_round_trip__coeffs4'], cls='bounded', tier='thorough', timeout=2400,
+          bound='n*cols*size <= 4 coefficients, contents symbolic', functions=['<VecZnx as WriterTo>::write_to']),
+    ],
+    trusted_base=[FMT_STUB, 'std::io::Cursor / byteorder as compiled by Kani'],
+    assumptions=[],
+    remainder='ScalarZnx/MatZnx harnesses, wrapper types (GLWE, GGLWE, GGSW, keys, compressed forms), cross-backend byte format (syntactic: no backend type parameter in these layouts)',
+)
+
+PROPS['C20'] = dict(
+    level='proof',
+    technique='Verus lemmas over the work-partition arithmetic sliced from the real multi-threaded functions (chunk_size, start, work-item index)',
+    level_text='Unbounded proof for all item and thread counts >= 1: the number of chunks never exceeds the thread count (the zip drops no chunk), each work item is produced by exactly one (thread, position) pair, every index handed to get_circuit/get_bit_lwe is in range.',
+    level_note='Only the partition arithmetic: scheduling, data races and the Sync/Send impls are not decided (Kani has no threads); the slice drops everything but the named statements.',
+    units=[V('partition', lemmas=['lemma_chunks_le_threads', 'lemma_exact_cover', 'c20_execute_chunk_size', 'c20_execute_item', 'c20_prepare_item', 'c20_no_item_skipped_or_repeated'])],
+    trusted_base=VERUS_TRUST + ['std::slice::chunks_mut / Iterator::zip / thread::scope semantics; usize::div_ceil assumed specification'],
+    assumptions=['threads >= 1 and items >= 1 (threads = 0 divides by zero, items = 0 makes chunks_mut(0) panic in the real code)'],
+    remainder='interleavings, bit-identical results across thread counts, Module Sync/Send',
+)
+
+PROPS['C03'] = dict(
+    level='proof',
+    technique='Verus contracts on the real text of mod_exp_u64 / galois_element / galois_element_inv with number-theoretic lemmas (g*g^(M-1) == 1 mod 2^k)',
+    level_text='Unbounded proof: mod_exp_u64(x,e) == x^e mod 2^64 for all x,e; galois_element follows the sign convention and equals 5^|k| mod 2N; galois_element_inv(g)*g == 1 mod 2N for every odd g and every power-of-two order <= 2^33.',
+    level_note='Only the Galois-group arithmetic of the key-switching family; the gadget products, noise bounds and trace/packing semantics are not decidable here.',
+    units=[V('galois', lemmas=['lemma_odd_pow', 'lemma_galois_inverse']),
+           K('poulpy-cpu-ref', 'verif_kani', ['c03_mask_mod_u64'], cls='complete', timeout=300, functions=['leaf fact x & (m-1) == x mod m (u64)'])],
+    trusted_base=VERUS_TRUST + ['assumed specifications of i64::unsigned_abs, i64::signum, u64::is_power_of_two'],
+    assumptions=[],
+    remainder='everything that multiplies polynomials (gadget product), noise bounds, trace/packing/LWE conversion semantics',
+)
+
+for _p, _r in _PENDING.items():
+    if _p not in PROPS:
+        NOT_APPLICABLE.append(dict(property_id=_p, reason=_r))
